@@ -205,3 +205,97 @@ Example c05_novel_orf_adds := ex_novel_orf_adds.  (* an out-of-frame ATG of a co
 Theorem rules_are_expasy_reference : MoPep.Gen.Expasy.site_rules = MoPep.Model.ExpasyRef.reference_rules.
 Proof. exact MoPep.Proofs.ExpasyProofs.rules_match_reference_proof. Qed.
 Print Assumptions rules_are_expasy_reference.
+
+(* ------------------------------------------------------------------------------------------------------------
+   --max-adjacent-as-mnv: what find_mnvs_from_adjacent_variants / create_mnv_from_adjacent
+   (moPepGen/seqvar/VariantRecord.py) emit.  Model: Model/Mnv.v over (start, end, ref, alt, type, id) records.
+   The two loops that do the work are translated from the source on every run (coq/Gen/Py_mnv.v, docs/py2coq.md
+   target 27) and proved equal to the model; the level dictionary around them (keyed by the loop index k) is not in
+   the translated subset: the model keeps the levels as a function of k (Mnv.level, flat_map of Mnv.extend). *)
+From MoPep Require Gen.Py_mnv.
+From MoPep Require Import Model.PyRt Model.Mnv Proofs.MnvProofs Proofs.Py2CoqMnvProofs.
+
+(* .. and the dictionary literal compatible_type_map, transcribed in Mnv.compat_class, still has the pinned text *)
+Theorem code_mnv_translated :
+  Py_mnv.py_create_mnv_untranslated = false /\ Py_mnv.py_mnv_scan_untranslated = false /\
+  Py_mnv.py_mnv_type_map_pinned_untranslated = false.
+Proof. vm_compute. repeat split; reflexivity. Qed.
+Print Assumptions code_mnv_translated.
+
+(* create_mnv_from_adjacent (accumulation loop + end of the last member): start of the first member, end of the
+   last, ref / alt / ids concatenated in order; None = the IndexError of the empty list *)
+Theorem code_create_mnv_is_model : forall variants, Py_mnv.py_create_mnv variants = create_mnv variants.
+Proof. exact code_create_mnv_is_model_l. Qed.
+Print Assumptions code_create_mnv_is_model.
+
+(* the scan `for j in range(i_t + 1, len(variants))` of one comb *)
+Theorem code_mnv_scan_is_model : forall variants type0 comb i_t v_t, nthZ variants i_t = Some v_t ->
+  Py_mnv.py_mnv_scan variants type0 comb i_t
+  = Some (scan type0 (m_end v_t) comb (i_t + 1) (skipn (Z.to_nat (i_t + 1)) variants)).
+Proof. exact code_mnv_scan_is_model_l. Qed.
+Print Assumptions code_mnv_scan_is_model.
+
+(* .. under the guard of the enclosing loop (i_t = comb[-1] is not the last index) it is Mnv.extend *)
+Theorem code_mnv_extend_is_model : forall variants type0 comb, 0 <= last comb 0 < zlen variants - 1 ->
+  Py_mnv.py_mnv_scan variants type0 comb (last comb 0) = Some (extend variants type0 comb).
+Proof. exact code_mnv_extend_is_model_l. Qed.
+Print Assumptions code_mnv_extend_is_model.
+
+(* WHAT IS EMITTED.  For record i the code emits exactly the chains of 2 .. K records starting at i (chainP: start
+   with [i], repeatedly append a later record j that is a `step` after the current last one), of the class of
+   record i; nothing for a record of another type, nothing at all for K < 2.  All lengths, not only the longest. *)
+Theorem mnv_chains_characterised : forall vs K i c,
+  In c (chains_from vs K i) <->
+  exists v0 c0, nthZ vs i = Some v0 /\ compat_class (m_ty v0) = Some c0 /\ chainP vs c0 i c /\
+                2 <= Z.of_nat (length c) <= K.
+Proof. exact chains_spec. Qed.
+Print Assumptions mnv_chains_characterised.
+
+(* a chain read as a list: it starts at i and consecutive members are steps (later index, class of record i, starts
+   exactly where the predecessor ends, no record of a known type in between starts after that end) -- and conversely *)
+Theorem mnv_chain_shape : forall vs c0 i c,
+  chainP vs c0 i c -> hd 0 c = i /\ c <> [] /\ consec (step vs c0) c.
+Proof. exact chain_shape. Qed.
+Print Assumptions mnv_chain_shape.
+
+Theorem mnv_chain_of_shape : forall vs c0 c, c <> [] -> consec (step vs c0) c -> chainP vs c0 (hd 0 c) c.
+Proof. exact chain_of_shape. Qed.
+Print Assumptions mnv_chain_of_shape.
+
+(* on records sorted by start (callVariant sorts them) the `break` of the scan never cuts a chain short *)
+Theorem mnv_step_of_sorted : forall vs c0 a b va vb,
+  sorted_by_start vs -> a < b -> nthZ vs a = Some va -> nthZ vs b = Some vb ->
+  compat_class (m_ty vb) = Some c0 -> m_start vb = m_end va -> step vs c0 a b.
+Proof. exact step_of_sorted. Qed.
+Print Assumptions mnv_step_of_sorted.
+
+(* THE MERGED RECORD of an emitted chain exists (no index out of range), has one member per index, and -- in the
+   terms of Model/Spec.v, whose adjacency convention admits abutting records in one haplotype only as "merged
+   adjacent variants" -- denotes the joint application of its members: same sequence from Spec.build *)
+Theorem mnv_emitted_denotes_chain : forall vs K i c, In c (chains_from vs K i) ->
+  exists m, create_mnv (pick vs c) = Some m /\ length (pick vs c) = length c /\
+            forall t pos h, build t pos (mnv_to_spec m :: h) = build t pos (map to_spec (pick vs c) ++ h).
+Proof. exact emitted_mnv_denotes_chain. Qed.
+Print Assumptions mnv_emitted_denotes_chain.
+
+(* its reference allele spans its location when the members' do *)
+Theorem mnv_merged_ref_spans : forall (l : list mrec) v,
+  consec (fun a b => m_start b = m_end a) (v :: l) ->
+  Forall (fun r => zlen (m_ref r) = m_end r - m_start r) (v :: l) ->
+  zlen (flat_map m_ref (v :: l)) = m_end (last (v :: l) v) - m_start v.
+Proof. exact merged_ref_spans. Qed.
+Print Assumptions mnv_merged_ref_spans.
+
+(* three abutting SNVs with --max-adjacent-as-mnv 3: pair 0-1, triple 0-1-2 AND pair 1-2;  with 2, pairs only, and
+   an INDEL sharing the boundary is stepped over (other class), not a barrier *)
+Theorem mnv_not_only_maximal :
+  all_chains [snv 10 65 67; snv 11 67 71; snv 12 71 84] 3 = [[0; 1]; [0; 1; 2]; [1; 2]] /\
+  map (fun m => (n_start m, n_end m, n_ref m, n_alt m)) (find_mnvs [snv 10 65 67; snv 11 67 71; snv 12 71 84] 3)
+  = [(10, 12, [65; 67], [67; 71]); (10, 13, [65; 67; 71], [67; 71; 84]); (11, 13, [67; 71], [71; 84])].
+Proof. exact not_only_maximal. Qed.
+Print Assumptions mnv_not_only_maximal.
+
+Theorem mnv_pairs_only_and_class :
+  all_chains [snv 10 65 67; mkM 11 12 [67] [67; 84] s_INDEL []; snv 11 67 71; snv 12 71 84] 2 = [[0; 2]; [2; 3]].
+Proof. exact pairs_only_and_class. Qed.
+Print Assumptions mnv_pairs_only_and_class.
